@@ -16,6 +16,7 @@ LEVEL_TEXT = ("Invariant analysis of the only mutators (MIR): dense creation-ord
 LEVEL_NOTE = ("Not decided: model equivalence over all operation histories (≤ 200 operations) — a refinement proof or model-based test, not a "
               "shape fact.  The check establishes the representation invariants that make the model hold.")
 LEVEL_TEXT += (' (E5.var) VariableMap::add refuses every second definition and set writes mutable bindings only; (C17.read/C17.get) read accessors expose the containers as stored and lookups have the recorded own-map-then-context shape.')
+LEVEL_TEXT += (' (C17.shape) the model types have exactly the recorded fields: added state is outside the invariants.')
 
 WITNESSES = ["W2"]
 
@@ -50,6 +51,19 @@ def _explicit_lookup(f):
 
 
 def run(prog, rep):
+    # the representation invariants below are stated over the fields these types have: a new field is state they do not cover (an
+    # ordered name list next to the map, a cached count …) and every mutator would have to keep it in step
+    from ..lib.facts import adt_shape
+    rep.rule("C17.shape", "the model types (Graph, GraphNode, Edge, Attributes, Globals, VariableMap and the two reference types) have exactly the fields the invariants are stated over")
+    for ty in ("tsg::graph::Graph", "tsg::graph::GraphNode", "tsg::graph::Edge", "tsg::graph::Attributes", "tsg::variables::Globals", "tsg::variables::VariableMap",
+               "tsg::graph::GraphNodeRef", "tsg::graph::SyntaxNodeRef"):
+        a = prog.adts.get(ty)
+        want = prog.anchor_adts.get(ty)
+        if a is None or want is None:
+            rep.violation("C17.shape", "anchor-lost:%s" % ty, "", "type not found")
+            continue
+        rep.check(adt_shape(a) == want, "C17.shape", "%s :: fields" % ty, "", want[:80],
+                  "%s now has the fields %s (recorded: %s): the added or changed state is outside the invariants checked for this property" % (ty.rsplit("::", 1)[-1], adt_shape(a)[:100], want[:100]))
     rep.rule("E5", "containers are mutated only by their designated functions")
     C09_n = 0
     n = 0
